@@ -110,6 +110,68 @@ func CheckExpr(t *core.T, opName string, e *Expr, k int) bool {
 	return wec == OK
 }
 
+// seqFamily: one policy set compiled once per expression answers every environment in
+// turn, forwards and then backwards (state an evaluator node, a folded tree or the set keeps
+// from an earlier request must not show in a later answer). Oracle: the reference, per call.
+func seqFamily(name string, specs []gen.OpSpec, leaves []*Expr, arity int) *core.Family {
+	nl := len(leaves)
+	ne := len(refEnvs)
+	per := pow(nl, arity)
+	return &core.Family{
+		Name: name,
+		Desc: fmt.Sprintf("%d operator forms x %d leaves^%d: one compiled policy set answers all %d environments forwards then backwards (%d calls per set)", len(specs), nl, arity, ne, 2*ne),
+		N:    int64(len(specs)) * per,
+		Run: func(t *core.T, i int64) {
+			spec := specs[i/per]
+			r := i % per
+			args := make([]*Expr, arity)
+			for j := arity - 1; j >= 0; j-- {
+				args[j] = leaves[r%int64(nl)]
+				r /= int64(nl)
+			}
+			e := spec.Build(args)
+			node := e.ToAST()
+			var ps *cedar.PolicySet
+			if t.Protect("seq-compile:"+spec.Name, e.String(), func() {
+				ps = cedar.NewPolicySet()
+				ps.Add("p", cedar.NewPolicyFromAST((*publicast.Policy)(xast.Permit().When(node))))
+			}) {
+				return
+			}
+			for step := 0; step < 2*ne; step++ {
+				k := step
+				if step >= ne {
+					k = 2*ne - 1 - step
+				}
+				want, wec := Eval(e, refEnvs[k])
+				if wec == Abstain {
+					continue
+				}
+				ienv := implEnvs[k]
+				input := func() string { return fmt.Sprintf("%s  [call %d on one compiled set, env %d]", e.String(), step, k) }
+				var dec cedar.Decision
+				var diag cedar.Diagnostic
+				if t.Protect("seq-authorize:"+spec.Name, input(), func() { dec, diag = cedar.Authorize(ps, ienv.ents, ienv.req) }) {
+					return
+				}
+				wantAllow := wec == OK && want.K == KBool && want.B
+				wantErr := wec != OK || want.K != KBool
+				if bool(dec) != wantAllow || (len(diag.Errors) == 1) != wantErr || len(diag.Errors) > 1 {
+					t.Fail(fmt.Sprintf("seq-authorize:%s:allow=%v,error=%v", spec.Name, wantAllow, wantErr), input(),
+						fmt.Sprintf("allow=%v errors=%v (reference: %s)", wantAllow, wantErr, resStr(want, wec)),
+						fmt.Sprintf("allow=%v errors=%v", bool(dec), diag.Errors))
+				}
+				if wec == OK {
+					t.Nontrivial()
+				}
+				t.AddTrans(1)
+			}
+			t.AddStates(1)
+			t.SampleF(e.String)
+		},
+	}
+}
+
 func resStr(v Val, ec ErrClass) string {
 	if ec != OK {
 		return "error:" + ec.String()
@@ -175,6 +237,7 @@ func Check() *core.Check {
 			} else {
 				fams = append(fams, ifQuickFamily(leaves))
 			}
+			fams = append(fams, seqFamily("compiled-once-unary", gen.Unary, leaves, 1), seqFamily("compiled-once-binary", gen.Binary, leaves, 2))
 			fams = append(fams, likeFamily(), extLitFamily(), arityFamily(), sizesFamily())
 			if tier == "thorough" {
 				fams = append(fams, likeDeepFamily("like-deep", []string{"a", "b"}, 6, 8), likeDeepFamily("like-deep-multibyte", []string{"a", "é", "😀"}, 5, 6))
